@@ -1,6 +1,7 @@
 package harness
 
 import (
+	"os"
 	"encoding/hex"
 	"encoding/json"
 	"fmt"
@@ -326,7 +327,7 @@ func (g *G) basePlan(prop string, seed uint64) *Plan {
 		sp.LagMax = g.between(1, 3)
 	}
 	// heads pushed over a websocket subscription instead of being polled
-	sp.WS = g.chance(20)
+	sp.WS = g.chance(20) && os.Getenv("VERIF_NO_WS") == ""
 	if g.chance(25) {
 		// position rows pruned in the background
 		p.Prune = &PrunePlan{Keep: g.pickInt([]int{1, 2, 3, 5, 8, 200}), EveryMs: g.pickInt([]int{500, 2000, 10000})}
